@@ -116,6 +116,9 @@ def xta_slots():
              st + ["init"], st + ["init", "A", ";", "trans"], st + ["init", "A", ";", "trans", "A"], tr, tr + ["select"],
              tr + ["select", "q", ":", "int[0,1]", ";", "guard"], tr + ["guard"], tr + ["sync"], tr + ["assign"], tr + ["probability"],
              tr + ["}", ","], tr + ["}", ",", "->"], tr + ["guard", "i", ">=", "0", ";", "}", ",", "zz", "->", "B", "{"],
+             tr + ["guard", "i", ">=", "0", ";", "}", ",", "zz", "->", "B", "{", "select", "q", ":", "ty"],
+             tr + ["guard", "i", ">=", "0", ";", "}", ",", "A", "->", "zz", "{", "guard"],
+             st + ["init", "A", ";", "trans", "zz", "->", "B", "{", "select", "q", ":"],
              tr + ["}", ";", "}"], tr + ["}", ";", "}", "system"], tr + ["}", ";", "}", "P", "=", "T", "("],
              tr + ["}", ";", "}", "system", "T", "<"], ["process", "T", "("], ["process", "T", "(", "int"]]
     return {"xta": ("xta", XTA_PRE + SLOT, XTA + ["int[0,1]", ">="], seeds)}
